@@ -388,10 +388,18 @@ func TestC17Registry(t *testing.T) {
 				// remove: un-keyed only when the type has no keyed/grouped registrations (the statement leaves that case open)
 				ty := rapid.SampledFrom(append(append([]int(nil), c17Types...), kit.TVoid)).Draw(rt, "rmtype")
 				keyed := rapid.Bool().Draw(rt, "rmkeyed") || ty == kit.TVoid
+				viaOption := ty != kit.TVoid && rapid.Bool().Draw(rt, "rmViaModule")
 				if keyed {
-					coll.RemoveKeyed(kit.RType(ty), "a")
+					if viaOption {
+						// the module-option form of the same removal (godi.RemoveKeyed[T](key))
+						if err := coll.AddModules(removeOption(ty, true)); err != nil {
+							f = fail("C17", "remove", "option-error", "AddModules(RemoveKeyed[%s](a)) returned %v", kit.TypeName(ty), err)
+						}
+					} else {
+						coll.RemoveKeyed(kit.RType(ty), "a")
+					}
 					ref.remove(kit.Ident{T: ty, Key: "a"})
-					steps = append(steps, fmt.Sprintf("removeKeyed(%s,a)", kit.TypeName(ty)))
+					steps = append(steps, fmt.Sprintf("removeKeyed(%s,a,option=%v)", kit.TypeName(ty), viaOption))
 				} else {
 					ambiguous := false
 					for _, d := range ref.descs {
@@ -402,9 +410,15 @@ func TestC17Registry(t *testing.T) {
 					if ambiguous {
 						continue
 					}
-					coll.Remove(kit.RType(ty))
+					if viaOption {
+						if err := coll.AddModules(godi.NewModule("rm", removeOption(ty, false))); err != nil {
+							f = fail("C17", "remove", "option-error", "AddModules(Remove[%s]()) returned %v", kit.TypeName(ty), err)
+						}
+					} else {
+						coll.Remove(kit.RType(ty))
+					}
 					ref.remove(kit.Ident{T: ty})
-					steps = append(steps, fmt.Sprintf("remove(%s)", kit.TypeName(ty)))
+					steps = append(steps, fmt.Sprintf("remove(%s,option=%v)", kit.TypeName(ty), viaOption))
 				}
 				removed = true
 				if built {
